@@ -346,19 +346,21 @@ func funcOnly(sym string) string {
 func writeCorpus() {
 	os.MkdirAll(corpusDir, 0o755)
 	files := map[string]string{
-		"a.basm":      "%section prog .romtext iomode:async\n\tentry _start\n_start:\n\trset r0, 5\nloop:\n\tinc r0\n\tr2o r0, o0\n\tj loop\n%endsection\n\n%meta cpdef p0 romcode: prog, ramsize:8\n%meta ioatt l1 cp: p0, index:0, type:output\n%meta ioatt l1 cp: bm, index:0, type:output\n%meta bmdef global registersize:8\n",
-		"lit.basm":    "%section prog .romtext iomode:async\n\tentry _start\n_start:\n\trset r0, 0u100\n\trset r1, 0x10\n\tadd r0, r1\n\tr2o r0, o0\n\tj _start\n%endsection\n\n%meta cpdef p0 romcode: prog, ramsize:8\n%meta ioatt l1 cp: p0, index:0, type:output\n%meta ioatt l1 cp: bm, index:0, type:output\n%meta bmdef global registersize:8\n",
-		"two.basm":    "%section prod .romtext iomode:sync\n\tentry _start\n_start:\n\tclr r0\nloop:\n\tinc r0\n\tr2owa r0, o0\n\tj loop\n%endsection\n%section cons .romtext iomode:sync\n\tentry _start\n_start:\n\ti2rw r0, i0\n\tr2owa r0, o0\n\tj _start\n%endsection\n\n%meta cpdef p0 romcode: prod, ramsize:8\n%meta cpdef p1 romcode: cons, ramsize:8\n%meta ioatt l1 cp: p0, index:0, type:output\n%meta ioatt l1 cp: p1, index:0, type:input\n%meta ioatt l2 cp: p1, index:0, type:output\n%meta ioatt l2 cp: bm, index:0, type:output\n%meta bmdef global registersize:8\n",
-		"frag.basm":   "%fragment inc1 resin:r0 resout:r0\n\tinc r0\n%endfragment\n%fragment sum resin:r0:r1 resout:r0\n\tadd r0, r1\n%endfragment\n\n%meta fidef f1 fragment:inc1\n%meta fidef f2 fragment:inc1\n%meta fidef f3 fragment:sum\n%meta filinkdef la type:fl\n%meta filinkdef lb type:fl\n%meta filinkdef lc type:fl\n%meta filinkdef ld type:fl\n%meta filinkdef le type:fl\n%meta filinkatt la fi:ext, type:input, index:0\n%meta filinkatt la fi:f1, type:input, index:0\n%meta filinkatt lb fi:ext, type:input, index:1\n%meta filinkatt lb fi:f2, type:input, index:0\n%meta filinkatt lc fi:f1, type:output, index:0\n%meta filinkatt lc fi:f3, type:input, index:0\n%meta filinkatt ld fi:f2, type:output, index:0\n%meta filinkatt ld fi:f3, type:input, index:1\n%meta filinkatt le fi:f3, type:output, index:0\n%meta filinkatt le fi:ext, type:output, index:0\n%meta cpdef cpa fragcollapse:f1:f2:f3\n%meta bmdef global registersize:8\n",
-		"romram.basm": "%section boot .romtext iomode:async\n\tentry _start\n_start:\n\trset r0, 7\n\tr2o r0, o0\n\tj _start\n%endsection\n\n%section work .ramtext iomode:async\n\tentry _w\n_w:\n\trset r0, 1\n\trset r1, 2\n\trset r2, 3\n\trset r3, 4\n\trset r4, 5\n\trset r5, 6\n\tadd r4, r5\n\tadd r0, r1\n\tr2o r0, o0\n\tj _w\n%endsection\n\n%meta cpdef cpu romcode: boot, ramcode: work\n%meta ioatt lo cp:cpu, index:0, type:output\n%meta ioatt lo cp:bm, index:0, type:output\n%meta bmdef global registersize:8\n",
-		"data.basm":   "%section code .romtext iomode:async\n\tentry _start\n_start:\n\trset r0, 1\n\tinc r0\n\tr2o r0, o0\n\tj _start\n%endsection\n\n%section consts .romdata\n\ttab db 0x01, 0x02, 0x03, 0x04, 0x05\n\tone db 0x2a\n%endsection\n\n%meta cpdef cpu romcode: code, romdata: consts\n%meta ioatt lo cp:cpu, index:0, type:output\n%meta ioatt lo cp:bm, index:0, type:output\n%meta bmdef global registersize:8\n",
-		"movs.basm":   "%section code .romtext iomode:async\n\tentry _start\n_start:\n\tmov r0, 3\n\tmov r1, 200\n\tmov r2, r0\n\tadd r2, r1\n\tmov o0, r2\n\tj _start\n%endsection\n\n%meta cpdef cpu romcode: code\n%meta ioatt lo cp:cpu, index:0, type:output\n%meta ioatt lo cp:bm, index:0, type:output\n%meta bmdef global registersize:8\n",
-		"tfrag.basm":  "%meta bmdef global registersize:8\n%fragment addk\n\trset r1, {{.Params.k}}\n\tadd r0, r1\n%endfragment\n%section alpha .romtext k:3\n\tentry _start\n_start:\n\ti2r r0, i0\n\tcall8s addk\n\tr2o r0, o0\n\tj _start\n%endsection\n%section beta .romtext k:5\n\tentry _start\n_start:\n\ti2r r0, i0\n\tcall8s addk\n\tr2o r0, o0\n\tj _start\n%endsection\n%section gamma .romtext k:9\n\tentry _start\n_start:\n\ti2r r0, i0\n\tcall8s addk\n\tr2o r0, o0\n\tj _start\n%endsection\n%meta cpdef cpa romcode:alpha\n%meta cpdef cpb romcode:beta\n%meta cpdef cpc romcode:gamma\n%meta ioatt l0 cp:bm, type:input, index:0\n%meta ioatt l0 cp:cpa, type:input, index:0\n%meta ioatt l1 cp:cpa, type:output, index:0\n%meta ioatt l1 cp:cpb, type:input, index:0\n%meta ioatt l2 cp:cpb, type:output, index:0\n%meta ioatt l2 cp:cpc, type:input, index:0\n%meta ioatt l3 cp:cpc, type:output, index:0\n%meta ioatt l3 cp:bm, type:output, index:0\n",
+		"a.basm":         "%section prog .romtext iomode:async\n\tentry _start\n_start:\n\trset r0, 5\nloop:\n\tinc r0\n\tr2o r0, o0\n\tj loop\n%endsection\n\n%meta cpdef p0 romcode: prog, ramsize:8\n%meta ioatt l1 cp: p0, index:0, type:output\n%meta ioatt l1 cp: bm, index:0, type:output\n%meta bmdef global registersize:8\n",
+		"lit.basm":       "%section prog .romtext iomode:async\n\tentry _start\n_start:\n\trset r0, 0u100\n\trset r1, 0x10\n\tadd r0, r1\n\tr2o r0, o0\n\tj _start\n%endsection\n\n%meta cpdef p0 romcode: prog, ramsize:8\n%meta ioatt l1 cp: p0, index:0, type:output\n%meta ioatt l1 cp: bm, index:0, type:output\n%meta bmdef global registersize:8\n",
+		"two.basm":       "%section prod .romtext iomode:sync\n\tentry _start\n_start:\n\tclr r0\nloop:\n\tinc r0\n\tr2owa r0, o0\n\tj loop\n%endsection\n%section cons .romtext iomode:sync\n\tentry _start\n_start:\n\ti2rw r0, i0\n\tr2owa r0, o0\n\tj _start\n%endsection\n\n%meta cpdef p0 romcode: prod, ramsize:8\n%meta cpdef p1 romcode: cons, ramsize:8\n%meta ioatt l1 cp: p0, index:0, type:output\n%meta ioatt l1 cp: p1, index:0, type:input\n%meta ioatt l2 cp: p1, index:0, type:output\n%meta ioatt l2 cp: bm, index:0, type:output\n%meta bmdef global registersize:8\n",
+		"frag.basm":      "%fragment inc1 resin:r0 resout:r0\n\tinc r0\n%endfragment\n%fragment sum resin:r0:r1 resout:r0\n\tadd r0, r1\n%endfragment\n\n%meta fidef f1 fragment:inc1\n%meta fidef f2 fragment:inc1\n%meta fidef f3 fragment:sum\n%meta filinkdef la type:fl\n%meta filinkdef lb type:fl\n%meta filinkdef lc type:fl\n%meta filinkdef ld type:fl\n%meta filinkdef le type:fl\n%meta filinkatt la fi:ext, type:input, index:0\n%meta filinkatt la fi:f1, type:input, index:0\n%meta filinkatt lb fi:ext, type:input, index:1\n%meta filinkatt lb fi:f2, type:input, index:0\n%meta filinkatt lc fi:f1, type:output, index:0\n%meta filinkatt lc fi:f3, type:input, index:0\n%meta filinkatt ld fi:f2, type:output, index:0\n%meta filinkatt ld fi:f3, type:input, index:1\n%meta filinkatt le fi:f3, type:output, index:0\n%meta filinkatt le fi:ext, type:output, index:0\n%meta cpdef cpa fragcollapse:f1:f2:f3\n%meta bmdef global registersize:8\n",
+		"romram.basm":    "%section boot .romtext iomode:async\n\tentry _start\n_start:\n\trset r0, 7\n\tr2o r0, o0\n\tj _start\n%endsection\n\n%section work .ramtext iomode:async\n\tentry _w\n_w:\n\trset r0, 1\n\trset r1, 2\n\trset r2, 3\n\trset r3, 4\n\trset r4, 5\n\trset r5, 6\n\tadd r4, r5\n\tadd r0, r1\n\tr2o r0, o0\n\tj _w\n%endsection\n\n%meta cpdef cpu romcode: boot, ramcode: work\n%meta ioatt lo cp:cpu, index:0, type:output\n%meta ioatt lo cp:bm, index:0, type:output\n%meta bmdef global registersize:8\n",
+		"data.basm":      "%section code .romtext iomode:async\n\tentry _start\n_start:\n\trset r0, 1\n\tinc r0\n\tr2o r0, o0\n\tj _start\n%endsection\n\n%section consts .romdata\n\ttab db 0x01, 0x02, 0x03, 0x04, 0x05\n\tone db 0x2a\n%endsection\n\n%meta cpdef cpu romcode: code, romdata: consts\n%meta ioatt lo cp:cpu, index:0, type:output\n%meta ioatt lo cp:bm, index:0, type:output\n%meta bmdef global registersize:8\n",
+		"movs.basm":      "%section code .romtext iomode:async\n\tentry _start\n_start:\n\tmov r0, 3\n\tmov r1, 200\n\tmov r2, r0\n\tadd r2, r1\n\tmov o0, r2\n\tj _start\n%endsection\n\n%meta cpdef cpu romcode: code\n%meta ioatt lo cp:cpu, index:0, type:output\n%meta ioatt lo cp:bm, index:0, type:output\n%meta bmdef global registersize:8\n",
+		"tfrag.basm":     "%meta bmdef global registersize:8\n%fragment addk\n\trset r1, {{.Params.k}}\n\tadd r0, r1\n%endfragment\n%section alpha .romtext k:3\n\tentry _start\n_start:\n\ti2r r0, i0\n\tcall8s addk\n\tr2o r0, o0\n\tj _start\n%endsection\n%section beta .romtext k:5\n\tentry _start\n_start:\n\ti2r r0, i0\n\tcall8s addk\n\tr2o r0, o0\n\tj _start\n%endsection\n%section gamma .romtext k:9\n\tentry _start\n_start:\n\ti2r r0, i0\n\tcall8s addk\n\tr2o r0, o0\n\tj _start\n%endsection\n%meta cpdef cpa romcode:alpha\n%meta cpdef cpb romcode:beta\n%meta cpdef cpc romcode:gamma\n%meta ioatt l0 cp:bm, type:input, index:0\n%meta ioatt l0 cp:cpa, type:input, index:0\n%meta ioatt l1 cp:cpa, type:output, index:0\n%meta ioatt l1 cp:cpb, type:input, index:0\n%meta ioatt l2 cp:cpb, type:output, index:0\n%meta ioatt l2 cp:cpc, type:input, index:0\n%meta ioatt l3 cp:cpc, type:output, index:0\n%meta ioatt l3 cp:bm, type:output, index:0\n",
+		"chooser1.basm":  "%meta bmdef global registersize:8\n%section sa .romtext iomode:async\n\tentry _start\n_start:\n\trsets6 r0, 3\n\tr2o r0, o0\n\tj _start\n%endsection\n%section sb .romtext iomode:async\n\tentry _start\n_start:\n\tmov r1, 5\n\tmov r0, r1\n\tr2o r0, o0\n\tj _start\n%endsection\n%meta cpdef cpa romcode:sa\n%meta cpdef cpb romcode:sb\n%meta ioatt oa cp:cpa, type:output, index:0\n%meta ioatt oa cp:bm, type:output, index:0\n%meta ioatt ob cp:cpb, type:output, index:0\n%meta ioatt ob cp:bm, type:output, index:1\n",
+		"chooser2.basm":  "%meta bmdef global registersize:8\n%section sa .romtext iomode:async\n\tentry _start\n_start:\n\trsets6 r0, 3\n\tr2o r0, o0\n\tj _start\n%endsection\n%section sb .romtext iomode:async\n\tentry _start\n_start:\n\trset r2, 200\n\tmov r1, 5\n\tmov r0, r1\n\tr2o r0, o0\n\tj _start\n%endsection\n%meta cpdef cpa romcode:sa\n%meta cpdef cpb romcode:sb\n%meta ioatt oa cp:cpa, type:output, index:0\n%meta ioatt oa cp:bm, type:output, index:0\n%meta ioatt ob cp:cpb, type:output, index:0\n%meta ioatt ob cp:bm, type:output, index:1\n",
 		"multidata.basm": "%meta bmdef global registersize:8\n%section codea .romtext iomode:async\n\tentry _start\n_start:\n\tmov r0, rom:a1\n\tmov r1, rom:a2\n\tr2o r0, o0\n\tj _start\n%endsection\n%section dataa .romdata\n\ta0 db 0x01, 0x02\n\ta1 db 0x03\n\ta2 db 0x04, 0x05, 0x06\n%endsection\n%section codeb .romtext iomode:async\n\tentry _start\n_start:\n\tmov r1, rom:b1\n\tr2o r1, o0\n\tj _start\n%endsection\n%section datab .romdata\n\tb0 db 0x0a, 0x0b, 0x0c\n\tb1 db 0x0d\n%endsection\n%section codec .romtext iomode:async\n\tentry _start\n_start:\n\tmov r2, rom:c0\n\tr2o r2, o0\n\tj _start\n%endsection\n%section datac .romdata\n\tc0 db 0x11\n%endsection\n%meta cpdef cpa romcode:codea, romdata:dataa\n%meta cpdef cpb romcode:codeb, romdata:datab\n%meta cpdef cpc romcode:codec, romdata:datac\n%meta ioatt oa cp:cpa, type:output, index:0\n%meta ioatt oa cp:bm, type:output, index:0\n%meta ioatt ob cp:cpb, type:output, index:0\n%meta ioatt ob cp:bm, type:output, index:1\n%meta ioatt oc cp:cpc, type:output, index:0\n%meta ioatt oc cp:bm, type:output, index:2\n",
-		"helper.basm": "%meta bmdef global registersize:8\n%meta cpdef cpa romcode:mul\n%meta cpdef cpb romcode:plain\n\n%section mul .romtext\n\tentry _start\n_start:\n\trset r0, 3\n\trset r1, 5\n\tmultp r0, r1\n\taddp r0, r1\n\tj _start\n%endsection\n\n%section plain .romtext\n\tentry _start\n_start:\n\trset r0, 3\n\tmultp r0, r0\n\tinc r0\n\tj _start\n%endsection\n",
-		"t.go":        "package main\n\nimport (\n\t\"bondgo\"\n)\n\nfunc main() {\n\tvar out0 bondgo.Output\n\tvar a uint8\n\tvar b uint8\n\tout0 = bondgo.Make(bondgo.Output, 3)\n\ta = 1\n\tb = 2\n\ta = a + b\n\tbondgo.IOWrite(out0, a)\n}\n",
-		"cfg.json":    "{\"DataType\":\"float32\",\"Params\":{\"expprec\":\"10\"}}\n",
-		"sb.json":     "{\"Rules\":[]}\n",
+		"helper.basm":    "%meta bmdef global registersize:8\n%meta cpdef cpa romcode:mul\n%meta cpdef cpb romcode:plain\n\n%section mul .romtext\n\tentry _start\n_start:\n\trset r0, 3\n\trset r1, 5\n\tmultp r0, r1\n\taddp r0, r1\n\tj _start\n%endsection\n\n%section plain .romtext\n\tentry _start\n_start:\n\trset r0, 3\n\tmultp r0, r0\n\tinc r0\n\tj _start\n%endsection\n",
+		"t.go":           "package main\n\nimport (\n\t\"bondgo\"\n)\n\nfunc main() {\n\tvar out0 bondgo.Output\n\tvar a uint8\n\tvar b uint8\n\tout0 = bondgo.Make(bondgo.Output, 3)\n\ta = 1\n\tb = 2\n\ta = a + b\n\tbondgo.IOWrite(out0, a)\n}\n",
+		"cfg.json":       "{\"DataType\":\"float32\",\"Params\":{\"expprec\":\"10\"}}\n",
+		"sb.json":        "{\"Rules\":[]}\n",
 	}
 	for n, t := range files {
 		os.WriteFile(filepath.Join(corpusDir, n), []byte(t), 0o644)
@@ -398,6 +400,8 @@ func main() {
 		{Name: "basm:romdata", Tool: "basm", Args: []string{"-o", "out.json", "data.basm"}, Inputs: []string{"data.basm"}, Outputs: []string{"out.json"}},
 		{Name: "basm:mov-chooser", Tool: "basm", Args: []string{"-chooser-min-word-size", "-o", "out.json", "movs.basm"}, Inputs: []string{"movs.basm"}, Outputs: []string{"out.json"}},
 		{Name: "basm:templated-fragment", Tool: "basm", Args: []string{"-o", "out.json", "tfrag.basm"}, Inputs: []string{"tfrag.basm"}, Outputs: []string{"out.json"}},
+		{Name: "basm:chooser-with-explicit-rsets-elsewhere", Tool: "basm", Args: []string{"-chooser-min-word-size", "-o", "out.json", "chooser1.basm"}, Inputs: []string{"chooser1.basm"}, Outputs: []string{"out.json"}},
+		{Name: "basm:chooser-tie-on-word-size", Tool: "basm", Args: []string{"-chooser-min-word-size", "-o", "out.json", "chooser2.basm"}, Inputs: []string{"chooser2.basm"}, Outputs: []string{"out.json"}},
 		{Name: "basm:several-data-sections", Tool: "basm", Args: []string{"-o", "out.json", "multidata.basm"}, Inputs: []string{"multidata.basm"}, Outputs: []string{"out.json"}},
 		{Name: "basm:helper-module-opcodes", Tool: "basm", Args: []string{"-o", "out.json", "helper.basm"}, Inputs: []string{"helper.basm"}, Outputs: []string{"out.json"}},
 		{Name: "neuralbond:testsmall", Tool: "neuralbond", Args: []string{"-net-file", "net-testsmall.json", "-config-file", "cfg.json", "-neuron-lib-path", "/repo/library/neurons", "-save-basm", "nn.basm"}, Inputs: []string{"net-testsmall.json", "cfg.json"}, Outputs: []string{"nn.basm", "cfg.json"}},
@@ -501,6 +505,11 @@ func main() {
 					rots = append(rots, k) // every start bucket
 				}
 				rots = append(rots, nb) // bucket 0, next in-bucket offset
+				if !run.Thorough() && (ci.c.Name == "basm:neural-net" || ci.c.Name == "basm:quantum") && nb > 2 {
+					// the two generated programs take seconds per assembly: the quick tier starts every range site at
+					// the next bucket, the middle one and the next in-bucket offset (thorough: every start bucket)
+					rots = []int{1, nb / 2, nb}
+				}
 				if run.Thorough() {
 					rots = append(rots, nb+1, 3*nb, 5*nb+1, 7*nb+nb-1)
 				}
